@@ -198,25 +198,29 @@ Record track := mkTrack {
   tr_time : Z;
   tr_timeout : Z;
   tr_pending : list (bytes * event);            (* claims voted since the last EndBlocker *)
-  tr_taken : list (bytes * N * Z * bytes)       (* (chain, id, hub amount taken at send time, denom) *)
+  tr_taken : list (bytes * N * Z * bytes);      (* (chain, id, hub amount taken at send time, denom) *)
+  tr_oracle : oracle_in
 }.
 
 Definition track_step (o : val) (prev cur : obs) (t : track) : track :=
   let kind := op_kind o in
   if kind =? 7 then mkTrack (map dec_token (vL (vnth 1 o))) (tr_time t) (tr_timeout t) (tr_pending t) (tr_taken t)
-  else if kind =? 5 then mkTrack (tr_tokens t) (vI (vnth 2 o)) (tr_timeout t) (tr_pending t) (tr_taken t)
-  else if kind =? 4 then mkTrack (tr_tokens t) (tr_time t) (tr_timeout t) (tr_pending t ++ [(vB (vnth 1 o), dec_event (vnth 2 o))]) (tr_taken t)
-  else if kind =? 6 then mkTrack (tr_tokens t) (tr_time t) (tr_timeout t) [] (tr_taken t)
+                            (mkOracle (map dec_pair_bz (vL (vnth 3 o))) (map dec_pair_bz (vL (vnth 4 o))))
+  else if kind =? 5 then mkTrack (tr_tokens t) (vI (vnth 2 o)) (tr_timeout t) (tr_pending t) (tr_taken t) (tr_oracle t)
+  else if kind =? 4 then mkTrack (tr_tokens t) (tr_time t) (tr_timeout t) (tr_pending t ++ [(vB (vnth 1 o), dec_event (vnth 2 o))]) (tr_taken t) (tr_oracle t)
+  else if kind =? 6 then mkTrack (tr_tokens t) (tr_time t) (tr_timeout t) [] (tr_taken t) (tr_oracle t)
   else if (kind =? 1) && (ob_code cur =? 0) then
     (* the entry created by this send *)
     let chain := vB (vnth 2 o) in
     let news := filter (fun e => beqb (s_chain e) chain && negb (in_entries e (all_entries prev))) (ob_pool cur) in
     match news with
     | e :: _ => mkTrack (tr_tokens t) (tr_time t) (tr_timeout t) (tr_pending t)
-                        ((chain, s_id e, vI (vnth 5 o) + vI (vnth 6 o), vB (vnth 4 o)) :: tr_taken t)
+                        ((chain, s_id e, vI (vnth 5 o) + vI (vnth 6 o), vB (vnth 4 o)) :: tr_taken t) (tr_oracle t)
     | [] => t
     end
   else t.
+
+Definition track0 (timeout : Z) : track := mkTrack [] 0 timeout [] [] (mkOracle [] []).
 
 Definition token_dec (toks : list token_info) (chain ext : bytes) : option Z :=
   match ext_to_token toks chain ext with Some ti => Some (ti_dec ti) | None => None end.
@@ -314,7 +318,7 @@ Definition mon_C12 (c impl : val) : val :=
                   let t1 := if (op_kind o =? 7) || (op_kind o =? 5) then track_step o prev cur t else t in
                   let r := mon_C12_step step o prev cur t1 in
                   (r, if (op_kind o =? 7) || (op_kind o =? 5) then t1 else track_step o prev cur t1))
-               0 (vL (vnth 2 c)) (vL impl) empty_obs (mkTrack [] 0 timeout [] [])).
+               0 (vL (vnth 2 c)) (vL impl) empty_obs (track0 timeout)).
 
 (* ---------- C13 ---------- *)
 Definition k_c13_alive := str [67;49;51;47;119;105;116;104;100;114;97;119;110;45;119;104;105;108;101;45;101;120;101;99;117;116;97;98;108;101]. (* C13/withdrawn-while-executable *)
@@ -358,4 +362,89 @@ Definition mon_C13_step (step : nat) (o : val) (prev cur : obs) (t : track) : li
 
 Definition mon_C13 (c impl : val) : val :=
   VL (mon_fold (fun step o prev cur (t : track) => (mon_C13_step step o prev cur t, track_step o prev cur t))
-               0 (vL (vnth 2 c)) (vL impl) empty_obs (mkTrack [] 0 (vI (vnth 5 (vnth 0 c))) [] [])).
+               0 (vL (vnth 2 c)) (vL impl) empty_obs (track0 (vI (vnth 5 (vnth 0 c))))).
+
+(* ---------- C11 ---------- *)
+Definition k_c11_debit := str [67;49;49;47;100;101;98;105;116].                                        (* C11/debit *)
+Definition k_c11_sched := str [67;49;49;47;115;99;104;101;100;117;108;101;100;45;97;109;111;117;110;116]. (* C11/scheduled-amount *)
+Definition k_c11_failed := str [67;49;49;47;102;97;105;108;101;100;45;114;101;113;117;101;115;116;45;99;104;97;110;103;101;100;45;115;116;97;116;101]. (* C11/failed-request-changed-state *)
+Definition k_c11_credit := str [67;49;49;47;100;101;112;111;115;105;116;45;99;114;101;100;105;116].      (* C11/deposit-credit *)
+
+Definition track_holder_rate (t : track) (addrs : list bytes) (rate : Z) : Z :=
+  let maxv := fold_left (fun m a => Z.max (agetd 0 (lower (strip0x a)) (o_holders (tr_oracle t))) m) addrs 0 in
+  commission_rate rate maxv.
+
+Definition same_lists {A} (f : A -> val) (a b : list A) : bool :=
+  let pa := map f a in let pb := map f b in
+  Nat.eqb (length pa) (length pb) && forallb (fun x => existsb (veqb x) pb) pa.
+
+Definition mon_C11_step (step : nat) (o : val) (prev cur : obs) (t : track) : list val :=
+  let kind := op_kind o in
+  if kind =? 1 then
+    let sender := vB (vnth 1 o) in let chain := vB (vnth 2 o) in let rcpt := vB (vnth 3 o) in
+    let denom := vB (vnth 4 o) in let a := vI (vnth 5 o) in let f := vI (vnth 6 o) in
+    if ob_code cur =? 0 then
+      (if (obs_bal cur sender denom - obs_bal prev sender denom =? - (a + f))
+          && (obs_supply cur denom - obs_supply prev denom =? - (a + f)) then []
+       else [viol k_c11_debit step [VI (obs_bal cur sender denom - obs_bal prev sender denom); VI (- (a + f))]])
+      ++
+      match denom_to_token (tr_tokens t) chain denom with
+      | Some ti =>
+          let rate := track_holder_rate t [sender; rcpt] (ti_comm ti) in
+          let comm := commission_of rate (a + f) in
+          let news := filter (fun e => beqb (s_chain e) chain && negb (in_entries e (all_entries prev))) (ob_pool cur) in
+          match news with
+          | [e] =>
+              if (s_token e =? to_ext (ti_dec ti) (a - comm)) && (s_fee e =? to_ext (ti_dec ti) f)
+                 && (s_comm e =? to_ext (ti_dec ti) comm) && beqb (s_recipient e) rcpt && beqb (s_ext e) (ti_ext ti) then []
+              else [viol k_c11_sched step [VI (s_token e); VI (to_ext (ti_dec ti) (a - comm)); VI (s_fee e); VI (s_comm e); VI comm]]
+          | _ => [viol k_c11_sched step [VI (Z.of_nat (length news))]]
+          end
+      | None => [viol k_c11_sched step []]
+      end
+    else
+      if same_lists (fun x : bytes * bytes * Z => VL [VB (fst (fst x)); VB (snd (fst x)); VI (snd x)]) (ob_bal prev) (ob_bal cur)
+         && same_lists (fun x : bytes * Z => VL [VB (fst x); VI (snd x)]) (ob_supply prev) (ob_supply cur)
+         && same_lists enc_ste (ob_pool prev) (ob_pool cur) then []
+      else [viol k_c11_failed step []]
+  else if kind =? 6 then
+    (* a block whose only applied claim is a deposit (to a hub account), with no refund or batch
+       movement: the recipient and the supply grow by exactly the converted amount *)
+    match tr_pending t with
+    | [(chain, EvDeposit _ coin amount _ recv _ _)] =>
+        if same_lists enc_ste (ob_pool prev) (ob_pool cur) && same_lists enc_batch (ob_batches prev) (ob_batches cur) then
+          match ext_to_token (tr_tokens t) chain coin with
+          | Some ti =>
+              let c := to_hub (ti_dec ti) amount in
+              let dsup := obs_supply cur (ti_denom ti) - obs_supply prev (ti_denom ti) in
+              let dbal := obs_bal cur recv (ti_denom ti) - obs_bal prev recv (ti_denom ti) in
+              if fits256 (obs_supply prev (ti_denom ti) + c) && (0 <? c) then
+                if (dsup =? c) && (dbal =? c) then [] else [viol k_c11_credit step [VI amount; VI c; VI dsup; VI dbal]]
+              else if (dsup =? 0) && (dbal =? 0) then [] else [viol k_c11_credit step [VI amount; VI 0; VI dsup; VI dbal]]
+          | None => if same_lists (fun x : bytes * Z => VL [VB (fst x); VI (snd x)]) (ob_supply prev) (ob_supply cur) then []
+                    else [viol k_c11_credit step [VI amount]]
+          end
+        else []
+    | [(chain, EvTransfer _ coin amount fee _ rchain _ _ _ recv_hub)] =>
+        if beqb rchain b_hub && same_lists enc_ste (ob_pool prev) (ob_pool cur) && same_lists enc_batch (ob_batches prev) (ob_batches cur) then
+          match ext_to_token (tr_tokens t) chain coin with
+          | Some ti =>
+              let c := to_hub (ti_dec ti) amount in
+              let dsup := obs_supply cur (ti_denom ti) - obs_supply prev (ti_denom ti) in
+              let dbal := obs_bal cur recv_hub (ti_denom ti) - obs_bal prev recv_hub (ti_denom ti) in
+              if fits256 (obs_supply prev (ti_denom ti) + c) && (0 <? c) && fits256 amount then
+                if (dsup =? c) && (dbal =? c) then [] else [viol k_c11_credit step [VI amount; VI c; VI dsup; VI dbal]]
+              else if (dsup =? 0) && (dbal =? 0) then [] else [viol k_c11_credit step [VI amount; VI 0; VI dsup; VI dbal]]
+          | None => []
+          end
+        else []
+    | _ => []
+    end
+  else [].
+
+Definition mon_C11 (c impl : val) : val :=
+  VL (mon_fold (fun step o prev cur (t : track) =>
+                  let t1 := if (op_kind o =? 7) || (op_kind o =? 5) then track_step o prev cur t else t in
+                  let r := mon_C11_step step o prev cur t1 in
+                  (r, if (op_kind o =? 7) || (op_kind o =? 5) then t1 else track_step o prev cur t1))
+               0 (vL (vnth 2 c)) (vL impl) empty_obs (track0 0)).
